@@ -44,10 +44,28 @@ InTri(s, a, b, c) == LET d1 == Cross(a, b, s) d2 == Cross(b, c, s) d3 == Cross(c
                      IN ~((d1 < 0 \/ d2 < 0 \/ d3 < 0) /\ (d1 > 0 \/ d2 > 0 \/ d3 > 0))
 InHull(s, h) == InTri(s, h[1], h[2], h[3]) \/ InTri(s, h[1], h[2], h[4]) \/ InTri(s, h[1], h[3], h[4]) \/ InTri(s, h[2], h[3], h[4])
 
+\* distance of s to the closed segment ab is at most r (over-approximated: integer square root rounded up), 32-bit safe
+NearSeg(s, a, b, r) ==
+    IF a = b THEN Len2(a, s) <= r * r
+    ELSE LET t == DotP(a, b, s) l == Len2(a, b) IN
+         IF t <= 0 THEN Len2(a, s) <= r * r
+         ELSE IF t >= l THEN Len2(b, s) <= r * r
+         ELSE Abs(Cross(a, b, s)) <= r * ISqrtHi(l)
+BoxNear(s, h, r) == /\ s[1] >= SetMin({h[i][1] : i \in 1..4}) - r /\ s[1] <= SetMax({h[i][1] : i \in 1..4}) + r
+                    /\ s[2] >= SetMin({h[i][2] : i \in 1..4}) - r /\ s[2] <= SetMax({h[i][2] : i \in 1..4}) + r
+NearHull(s, h, r) == BoxNear(s, h, r) /\ \E i, j \in 1..4 : i < j /\ NearSeg(s, h[i], h[j], r)
+
 FREE == 99
+\* Margin version for embeddings at natural scale: the library flattens with the absolute tolerance 0.01, so the
+\* flattened outline may leave a piece hull by up to 6 x 0.01 units; samples within MarginR (0.08 lattice units at
+\* scale S*D = 960 per unit, i.e. 77) of a piece hull are free as well.
+MarginR == 77
+WVecM(path) == LET pieces == AllPieces(path) poly == PolyPath(path) IN
+              [k \in 1..NS |-> LET s == Sample64(k) IN
+                  IF (\E h \in pieces : BoxNear(s, h, MarginR) /\ (InHull(s, h) \/ NearHull(s, h, MarginR))) \/ OnPath(poly, s) THEN FREE ELSE Wind(poly, s)]
 WVec(path) == LET pieces == AllPieces(path) poly == PolyPath(path) IN
               [k \in 1..NS |-> LET s == Sample64(k) IN
-                  IF (\E h \in pieces : InHull(s, h)) \/ OnPath(poly, s) THEN FREE ELSE Wind(poly, s)]
+                  IF (\E h \in pieces : BoxNear(s, h, 0) /\ InHull(s, h)) \/ OnPath(poly, s) THEN FREE ELSE Wind(poly, s)]
 B(x) == IF x THEN 1 ELSE 0
 CellW(op, wa, wb) ==
     IF wa = FREE \/ wb = FREE THEN 2
@@ -59,13 +77,17 @@ SettleW(rule, w) == IF w = FREE THEN 2 ELSE B(Fills(rule, w))
 
 Scenario ==
     IF What = "bool"
-    THEN LET wp == WVec(p) wq == WVec(q) IN
+    THEN LET wp == WVec(p) wq == WVec(q) mp == WVecM(p) mq == WVecM(q) IN
          [p |-> p, q |-> q, and |-> CellsW("and", wp, wq), or |-> CellsW("or", wp, wq), xor |-> CellsW("xor", wp, wq),
-          not |-> CellsW("not", wp, wq), div |-> CellsW("div", wp, wq), decided |-> Cardinality({k \in 1..NS : wp[k] # FREE /\ wq[k] # FREE})]
-    ELSE LET wp == WVec(p) IN
+          not |-> CellsW("not", wp, wq), div |-> CellsW("div", wp, wq), decided |-> Cardinality({k \in 1..NS : wp[k] # FREE /\ wq[k] # FREE}),
+          mand |-> CellsW("and", mp, mq), mor |-> CellsW("or", mp, mq), mxor |-> CellsW("xor", mp, mq),
+          mnot |-> CellsW("not", mp, mq), mdiv |-> CellsW("div", mp, mq)]
+    ELSE LET wp == WVec(p) wm == WVecM(p) IN
          [p |-> p, r0 |-> [k \in 1..NS |-> SettleW(0, wp[k])], r1 |-> [k \in 1..NS |-> SettleW(1, wp[k])],
           r2 |-> [k \in 1..NS |-> SettleW(2, wp[k])], r3 |-> [k \in 1..NS |-> SettleW(3, wp[k])],
-          decided |-> Cardinality({k \in 1..NS : wp[k] # FREE})]
+          m0 |-> [k \in 1..NS |-> SettleW(0, wm[k])], m1 |-> [k \in 1..NS |-> SettleW(1, wm[k])],
+          m2 |-> [k \in 1..NS |-> SettleW(2, wm[k])], m3 |-> [k \in 1..NS |-> SettleW(3, wm[k])],
+          decided |-> Cardinality({k \in 1..NS : wp[k] # FREE}), decidedm |-> Cardinality({k \in 1..NS : wm[k] # FREE})]
 
 Choice == {<<c>> : c \in RandomSubset(Num, CContours)}
 Init == /\ p \in Choice /\ (IF What = "bool" THEN q \in Choice ELSE q = <<>>) /\ done = FALSE
